@@ -338,12 +338,42 @@ func program(r *mc.Run) func(x *mc.X) {
 						k := x.Choose(len(pending), "serve-next")
 						p := pending[k]
 						pending = append(pending[:k:k], pending[k+1:]...)
-						if dropped[p.who] || x.Choose(2, fmt.Sprintf("path-of-client%d", p.who)) == 1 {
+						fate := 1
+						if !dropped[p.who] {
+							fate = x.Choose(3, fmt.Sprintf("path-of-client%d", p.who))
+						}
+						if fate == 1 {
 							dropped[p.who] = true
 							continue // lost: that client times out
 						}
 						out := sw.Send(sw.Svc, p.d.To, p.d.Data)
 						if len(out) != 1 || p.sock.Closed() {
+							continue
+						}
+						if fate == 2 {
+							// the server is unsynchronised for this one exchange and the network
+							// duplicates its reply: the attempt fails at once (both datagrams are
+							// discarded), a client with attempts left tries again in the same round
+							gen, perr := kit.Parse(out[0].Data)
+							if perr != nil || gen.UDP == nil {
+								x.Failf("harness", "reply of the listener: %v", perr)
+							}
+							payload := append([]byte{}, gen.UDP.Payload...)
+							payload[0] |= 0xc0
+							payload[1] = 0
+							sh, _ := netip.AddrFromSlice(gen.SCION.RawSrcAddr)
+							dh, _ := netip.AddrFromSlice(gen.SCION.RawDstAddr)
+							pk := &kit.Pkt{SrcIA: gen.SCION.SrcIA, DstIA: gen.SCION.DstIA, SrcHost: sh, DstHost: dh, RawPath: gen.RawPath, PathType: gen.SCION.PathType,
+								L4: "udp", SrcPort: gen.UDP.SrcPort, DstPort: gen.UDP.DstPort, Payload: payload}
+							for k := 0; k < 2 && !p.sock.Closed(); k++ {
+								bad := *out[0]
+								bad.Data = pk.Bytes()
+								bad.RxTime = w.Clock.Peek()
+								p.sock.Deliver(&bad)
+								w.Settle()
+							}
+							x.Transitions++
+							x.Logf("client %d: unsynchronised reply, duplicated", p.who)
 							continue
 						}
 						rd := *out[0]
@@ -487,6 +517,6 @@ func TestCheck(t *testing.T) {
 			return
 		}
 		r.Explore(mc.Config{Name: "paths", Bound: mc.Pick(r, 3, 4)}, program(r))
-		r.Extra["rule"] = "two rounds of MeasureClockOffsetSCION with 1..3 real SCIONClients (each interleaved or not) against the real SCION listener; offered path sets from an 11-entry menu (0..4 paths, a duplicate fingerprint, a fingerprint-less path); random words scripted so that every RandIntn result is reachable; completion order of the per-path exchanges and per-path loss chosen by the explorer; all executions within 3 (4) deviations"
+		r.Extra["rule"] = "two rounds of MeasureClockOffsetSCION with 1..3 real SCIONClients (each interleaved or not) against the real SCION listener; offered path sets from an 11-entry menu (0..4 paths, a duplicate fingerprint, a fingerprint-less path); random words scripted so that every RandIntn result is reachable; completion order of the per-path exchanges, per-path loss and per-exchange rejection (duplicated unsynchronised reply: the attempt fails at once, an interleaved client retries within the round) chosen by the explorer; all executions within 3 (4) deviations"
 	})
 }
